@@ -289,6 +289,16 @@ def execute(sc, mutant=None):
     cache_dir = None
     if sc.get('cache'):
         cache_dir = tlc.scratch_dir('c03cache-')
+        # decoys: cache files of OTHER tables (as another firmware build would have left them) whose
+        # checksums share their low hex digits with this device's; they must not be taken for it
+        for (crc, kind) in sc.get('decoys', ()):
+            cls = 'LogTocElement' if kind == 'log' else 'ParamTocElement'
+            ent = {'__class__': cls, 'ident': 0, 'group': 'decoy', 'name': 'x%X' % crc, 'ctype': 'uint8_t',
+                   'pytype': '<B', 'access': 0}
+            if kind == 'param':
+                ent['extended'] = False
+            with open(os.path.join(cache_dir, '%08X.json' % crc), 'w') as f:
+                json.dump({'decoy': {ent['name']: ent}}, f, indent=2)
     undo = None
     res = {'connected': 0, 'flushes': 0}
     try:
@@ -300,6 +310,11 @@ def execute(sc, mutant=None):
                 def user():
                     for c in range(sc.get('connects', 1)):
                         ses.open(c + 1)
+                        # unsolicited value-updated notifications (MISC channel, command 1) that the
+                        # firmware may send at any time, here before any table exists
+                        for pid in sc.get('early_notify', ()):
+                            if ses.dev.link is not None:
+                                ses.dev.link.in_queue.put(sd.reply(sv.PORT_PARAM, 3, bytes([1, pid & 0xFF, pid >> 8, 7])))
                         for _ in range(sc.get('max_wait', 3000)):
                             if ses.connected_evt.wait(0.35):
                                 break
@@ -808,6 +823,15 @@ def scenarios(tier, rng):
                     f = {rng.choice(['log', 'param']): {str(rng.randint(1, 4)): rng.choice(FAULT_ACTS)}}
                 out.append(('cache', make_scenario(rng, a, b, 10 if v2 else 3, faults=f, cache=True, connects=2,
                                                    resend=(r % 2 == 0))))
+    # -- cache with decoys: device checksums with leading zero hex digits, other tables' files whose
+    #    names end in the same digits (a file-name match on fewer than 8 digits would take them)
+    for i, (a, b) in enumerate([(1, 1), (3, 2), (0, 4)] if quick else [(1, 1), (3, 2), (0, 4), (12, 9), (2, 0)]):
+        for (lc, pc, decoys) in ((0x0003BEEF, 0x00000A1C, [(0x1A23BEEF, 'log'), (0xDEAD0A1C, 'param'), (0x7003BEEF, 'param')]),
+                                 (0x00000000, 0x0BCDEF12, [(0x10000000, 'log'), (0xABCDEF12, 'param'), (0x00000001, 'log')])):
+            out.append(('cache', make_scenario(rng, a, b, 10 if i % 2 == 0 else 3, cache=True, connects=2,
+                                               crc={'log': lc, 'param': pc}, decoys=decoys)))
+    for (a, b) in [(2, 3), (1, 5)]:
+        out.append(('cache', make_scenario(rng, a, b, 10, cache=True, connects=2, early_notify=[0, 2])))
     # -- random
     for _ in range(250 if quick else 4000):
         pver = rng.choice(PVER_V2 + PVER_V1)
@@ -1005,7 +1029,8 @@ def main(tier, seed, replay=None):
         'pytype is compared as the representation of the C type; for the parameter FP16 code the library has none (accepted)',
         'V1 tables have at most 255 entries (8-bit count); protocol version < 4 (or no version service) = V1, >= 4 = V2',
         'log and param tables have different CRCs (DESIGN 3.1(7)); replies are duplicated, delayed or stale but not lost or corrupted',
-        'a connection that never signals connected is outside this (conditional) property; such executions are counted, not judged',
+        'the property is conditional on connected; an execution with only duplicated/delayed/stale replies that never '
+        'signals connected is nevertheless reported (clause NeverConnected): the quantifier is about exactly these executions',
         'the firmware twin (simdev TocTable/ParamService) follows the dissector layouts; the extended-type query is answered for V1 devices too',
     ]
     if replay:
@@ -1018,6 +1043,8 @@ def main(tier, seed, replay=None):
         bad, _d, _u = judge(out, [t], 'replay')
         for (i, clause, at, wit) in bad:
             out.violation(signature(t, clause, at, wit), clause, {'event_index': at, 'witness': wit}, rp)
+        if _u and not bad:
+            out.violation('NeverConnected/replay', 'NeverConnected', {'detail': t.get('detail')}, rp)
         return out.finish()
 
     import time as _time
@@ -1105,11 +1132,20 @@ def main(tier, seed, replay=None):
                           {'event_index': at, 'witness': wit, 'family': fam_scs[i][0], 'scenario': _summary(scs[i]),
                            'detail': traces[i].get('detail')},
                           {'scenario': _jsonable(scs[i])})
-    if unconn:
-        i = unconn[0]
-        what = str(jobs[i]['cfg'])[:200] if i < nr else '%s detail %s' % (_summary(scs[i - nr]), traces[i - nr].get('detail'))
-        raise common.MachineryError('%d executions did not reach connected as often as expected; first: %s' %
-                                    (len(unconn), what))
+    # Executions in which nothing but duplicated / delayed / stale replies happen always reach
+    # `connected` on the tree as given (asserted here over every tier and seed).  The property is
+    # conditional on `connected`, but its quantifier ("regardless of duplicated, stale or delayed
+    # replies") is about exactly these executions: a download that does not survive them is reported
+    # (clause NeverConnected), not hidden as a machinery failure.
+    for i in unconn[:20]:
+        if i < nr:
+            out.violation('NeverConnected/replayed-behaviour', 'NeverConnected',
+                          {'source': 'replayed TLC behaviour', 'cfg': str(jobs[i]['cfg'])[:300]}, {'job': jobs[i]})
+        else:
+            sc_ = scs[i - nr]
+            out.violation('NeverConnected/%s' % fam_scs[i - nr][0], 'NeverConnected',
+                          {'family': fam_scs[i - nr][0], 'scenario': _summary(sc_), 'detail': traces[i - nr].get('detail')},
+                          {'scenario': _jsonable(sc_)})
     all_traces = rtraces + traces
     out.evaluations = len(all_traces)
     out.distinct = len({json.dumps([t['dev'], [(e['e'], e.get('kind'), e.get('d')) for e in t['ev']
